@@ -976,7 +976,7 @@ def _can_del_all(self: fst.FST, field: str, options: Mapping[str, Any]) -> bool:
     if field == 'finalbody':
         return bool(ast.handlers)
 
-    return ast.__class__ is _ExceptHandlers or bool(ast.finalbody)  # field == 'handlers'
+    return ast.__class__ is _ExceptHandlers or (bool(ast.finalbody) and not ast.orelse)  # field == 'handlers', an `else` block is only valid if there are handlers
 
 
 # ......................................................................................................................
@@ -1134,6 +1134,15 @@ def _put_slice_stmtlike_old(
 
     if (not put_fst or not put_body) and len_slice == len_body and not _can_del_all(self, field, options):
         raise ValueError(f'cannot delete all elements from {ast_cls.__name__}.{field} without norm_self=False')
+
+    if (put_fst
+        and put_body
+        and field == 'orelse'
+        and ast_cls in (Try, TryStar)
+        and not ast.handlers
+        and fst.FST._get_opt_eff_norm_self(options)
+    ):  # an `else` block in a `try` is only valid if there are handlers
+        raise ValueError(f'cannot put to {ast_cls.__name__}.orelse without handlers without norm_self=False')
 
     lines = root._lines
     fpre = body[start - 1].f if start else None
